@@ -13,7 +13,7 @@ from vcore import COQ, clist, z
 TIE = 'Tie.C18'
 DEN = 1024
 SHARD = 30
-KINDS = ['cubic', 'ortho', 'mono', 'tri', 'tri_full']
+KINDS = ['cubic', 'ortho', 'mono', 'hex', 'tri', 'tri_full']
 GROUPS = ['1', '-1', '2', 'm', '2/m', '222', 'mm2', 'mmm', '4', '-4', '4/m', '422', '4mm', '-42m', '4/mmm', '23', 'm-3', '432', '-43m', 'm-3m']
 RULE = ('cases = 1-2 tetrahedral centre/satellite clusters (P with 4 S, bond 1.4-1.7 A, random orientation, slow rotation over 3-8 frames, positions on the '
         '2^-10 grid) placed anywhere in the cell incl. next to faces so that bonds cross them, in 5 lattice classes (integer matrices; cells large enough that '
@@ -102,7 +102,11 @@ def impl(case):
     vec = np.array(ori.vectors)
     frac = lat.get_fractional_coords(vec.reshape(-1, 3)).reshape(vec.shape)
     out = {'frac': (frac * DEN).tolist(), 'lengths': np.linalg.norm(vec, axis=-1).tolist()}
-    nrm = ori.normalize().vectors
+    nrm = np.array(ori.normalize().vectors)
+    ori.transform(np.eye(3) * 2.0)
+    ori.symmetrize(sym_group='mmm')
+    _ = ori.vectors_spherical
+    out['source_unchanged'] = bool(np.array_equal(np.array(ori.vectors), vec))
     out['norm_ok'] = bool(np.allclose(np.linalg.norm(nrm, axis=-1), 1, atol=1e-12)
                           and np.allclose(nrm * np.linalg.norm(vec, axis=-1, keepdims=True), vec, atol=1e-12))
     # symmetrize / transform on integer vectors
@@ -171,6 +175,8 @@ def oracle(case, out):
                         fs.append(('orient/length-not-periodic-distance', f'bond length {out["lengths"][t][k]} but periodic distance {d}'))
                         return fs
                     k += 1
+    if not out.get('source_unchanged', True):
+        fs.append(('orient/derived-call-mutates-source', 'normalize()/transform()/symmetrize() changed the vectors of the object they were called on'))
     if not out['norm_ok']:
         fs.append(('orient/normalize', 'normalize() does not give unit vectors with the same directions'))
     ops = [np.array(o) for o in out['ops']]
